@@ -620,7 +620,7 @@ class Sort(Family):
         return "J_eqb (j_res (%s)) %s" % (call, exp)
 
     def generate(self, rng, tier):
-        nbase_ex, nrand = (10, 500) if tier == "quick" else (60, 8000)
+        nbase_ex, nrand = (10, 500) if tier == "quick" else (30, 4000)
         for _ in range(nbase_ex):
             d = variants(rng, base_desc(rng, small=True))
             for t in ("edges", "sites", "mutations", "migrations"):
@@ -754,7 +754,7 @@ class Repair(Family):
         return "J_eqb (j_res (%s)) %s" % (call, exp)
 
     def generate(self, rng, tier):
-        nbase_ex, nrand = (6, 500) if tier == "quick" else (40, 8000)
+        nbase_ex, nrand = (6, 500) if tier == "quick" else (20, 4000)
         for _ in range(nbase_ex):
             d = variants(rng, base_desc(rng, small=True))
             for t in TABLES:
@@ -1032,7 +1032,7 @@ class Canon(Family):
         return " && ".join(terms) if terms else None
 
     def generate(self, rng, tier):
-        nbase_ex, nrand = (6, 400) if tier == "quick" else (40, 4000)
+        nbase_ex, nrand = (6, 400) if tier == "quick" else (20, 3000)
         for _ in range(nbase_ex):
             d = variants(rng, base_desc(rng, small=True))
             d["migrations"] = []
